@@ -4590,4 +4590,82 @@ example : (parseRecipe (α := Rat) C07_sEnvT ">> source: grandma\n\nUse ~zt(a) n
     [⟨.warning, .parse, "note-not-allowed:timer", [⟨27, 30⟩, ⟨27, 27⟩]⟩,
      ⟨.error, .parse, "timer-missing-quantity", [⟨27, 27⟩]⟩] := by decide +kernel
 
+/-- **Single-word ingredient / cookware with modifier tokens, wherever it stands** (`@&&salt`, `#@pot`, `#&&pot`; the
+    single-word FORM of the entries duplicate modifier / recipe modifier on cookware).  Marker, plain modifier tokens
+    `ms` (none when COMPONENT_MODIFIERS is off), word / number tokens `W` showing a non-blank character; the token after
+    them is no word / number token and no `(`; no `{` before the next marker.  One iteration of the step loop consumes
+    exactly `marker ms W` and pushes EXACTLY one `duplicate-modifier` (error, parse; the span of the modifier tokens)
+    per modifier token repeating an earlier one, for cookware then `cookware-recipe-modifier` on the first `@` iff
+    there is one, then the component named `W` with the accumulated flags on the byte range of the construct. -/
+theorem C07_planted_single_word_modifiers (T A rest : List Tok) (cs : CharSpec) (e : Ext) (hw : WF T) (tm : Tok)
+    (ms W : List Tok) (hT : T = A ++ ((tm :: (ms ++ W)) ++ rest))
+    (hm : (e.has Gen.EXT_COMPONENT_MODIFIERS = false ∧ ms = []) ∨
+      (e.has Gen.EXT_COMPONENT_MODIFIERS = true ∧ ∀ m ∈ ms, modKind m.kind = true)) (hs : SimpleMods ms)
+    (hW : ∀ t ∈ W, wordKind t.kind = true) (hne : W ≠ [])
+    (hR : ∀ t, rest.head? = some t → wordKind t.kind = false) (hnb : noBraceFirst rest = true)
+    (hnp : ∀ t, rest.head? = some t → t.kind ≠ .openParen)
+    (hname : (buildText (offAt T (A.length + 1 + ms.length)) W).isTextEmpty cs = false) :
+    (tm.kind = .at → PlPieceAt (α := α) T cs e A ⟨tm :: (ms ++ W), c07s_ingrShortF T A tm ms W⟩) ∧
+    (tm.kind = .hash → PlPieceAt (α := α) T cs e A ⟨tm :: (ms ++ W), c07s_cwShortF T A tm ms W⟩) :=
+  ⟨fun hk => c07s_ingredient_short_piece T A rest cs e tm ms W hT hw hk hm hs hW hne hR hnb hnp hname,
+   fun hk => c07s_cookware_short_piece T A rest cs e tm ms W hT hw hk hm hs hW hne hR hnb hnp hname⟩
+
+/-- **Instance: single-word ingredient / cookware with modifier tokens planted in a document.**  The construct is given
+    by SPECIFICATION tokens `marker msS WS` (conditions on them and on the specified tokens after the construct; the
+    name shows a non-blank character in a plain token).  On every actual block the construct is a piece with the events
+    of `C07_planted_single_word_modifiers` on the actual parts (`c07s_shortSpec`): the hypothesis `hB` of
+    `C07_planted_document`. -/
+theorem C07_planted_document_single_word_modifiers (env : Env) (pre post : List SegX) (tmS : Tok) (msS WS : List Tok)
+    (hm : (env.ext.has Gen.EXT_COMPONENT_MODIFIERS = false ∧ msS = []) ∨
+      (env.ext.has Gen.EXT_COMPONENT_MODIFIERS = true ∧ ∀ m ∈ msS, modKind m.kind = true)) (hs : SimpleMods msS)
+    (hW : ∀ t ∈ WS, wordKind t.kind = true) (hne : WS ≠ [])
+    (hR : ∀ t, (post.flatMap SegX.spell).head? = some t → wordKind t.kind = false)
+    (hnb : noBraceFirst (post.flatMap SegX.spell) = true)
+    (hnp : ∀ t, (post.flatMap SegX.spell).head? = some t → t.kind ≠ .openParen)
+    (hname : ∃ t ∈ WS, plainKind t.kind = true ∧ NBs env.cs t.text) :
+    (tmS.kind = .at →
+      ∀ (T tpre tB tpost : List Tok), T = tpre ++ (tB ++ tpost) → Spells tpre (pre.flatMap SegX.spell) →
+        Spells tB (tmS :: (msS ++ WS)) → Spells tpost (post.flatMap SegX.spell) → RunAt (baseOff T) T →
+        PlPieceAt (α := α) T env.cs env.ext tpre ⟨tB, c07s_shortSpec msS WS tB (c07s_ingrShortF T tpre)⟩) ∧
+    (tmS.kind = .hash →
+      ∀ (T tpre tB tpost : List Tok), T = tpre ++ (tB ++ tpost) → Spells tpre (pre.flatMap SegX.spell) →
+        Spells tB (tmS :: (msS ++ WS)) → Spells tpost (post.flatMap SegX.spell) → RunAt (baseOff T) T →
+        PlPieceAt (α := α) T env.cs env.ext tpre ⟨tB, c07s_shortSpec msS WS tB (c07s_cwShortF T tpre)⟩) :=
+  ⟨fun hk T tpre tB tpost hT _ hsB hpost hrun =>
+      (c07s_short_mods_pieceAt env.cs env.ext tmS msS WS _ hm hs hW hne hR hnb hnp hname T tpre tB tpost hT hsB hpost
+        hrun).1 hk,
+   fun hk T tpre tB tpost hT _ hsB hpost hrun =>
+      (c07s_short_mods_pieceAt env.cs env.ext tmS msS WS _ hm hs hW hne hR hnb hnp hname T tpre tB tpost hT hsB hpost
+        hrun).2 hk⟩
+
+/-! non-vacuity: the document `>> source: grandma` / blank / `Use #@pot now` under COMPONENT_MODIFIERS: all hypotheses
+    of `C07_planted_document` decided, `hB` from the instance; evaluated report: exactly `cookware-recipe-modifier`
+    ⟨25,26⟩, no output; `Use @&&salt now`: `duplicate-modifier` ⟨25,27⟩. -/
+def C07_sB3 : List Tok := tk .hash ['#'] :: ([tk .at ['@']] ++ [tk .word "pot".toList])
+def C07_sSpec3 : List Tok → List Tok → List Tok → List (Ev Rat) → Prop :=
+  fun T tpre tB => c07s_shortSpec [tk .at ['@']] [tk .word "pot".toList] tB (c07s_cwShortF T tpre)
+def C07_sDoc3 : List (PlBlock Rat × List Tok) :=
+  plantedDoc toyCharSpec C07_dDocA [] C07_plPre' C07_plPost C07_sB3 [C01_nl] C07_sSpec3
+example : render ([] ++ plDocSpec C07_sDoc3) = ">> source: grandma\n\nUse #@pot now\n".toList := by decide
+example : ∃ (T tpre tB tpost : List Tok) (evsB : List (Ev Rat)),
+    T <:+: lex toyCharSpec (render ([] ++ plDocSpec C07_sDoc3)) ∧ T = tpre ++ (tB ++ tpost) ∧
+    Spells tB C07_sB3 ∧ C07_sSpec3 T tpre tB evsB ∧
+    (parseRecipe (α := Rat) C07_vEnvM (render ([] ++ plDocSpec C07_sDoc3))).diags.toList.filter
+      (fun d => d.stage == .parse) = evDiags evsB := by
+  obtain ⟨T, tpre, tB, tpost, evsB, h1, h2, -, h4, -, h6, h7, -⟩ :=
+    C07_planted_document (α := Rat) C07_vEnvM [] C07_dDocA [] C07_plPre' C07_plPost C07_sB3 [C01_nl] C07_sSpec3
+      (by decide) (by decide) (by intro d h; cases h) (by decide)
+      ((C07_planted_document_single_word_modifiers C07_vEnvM C07_plPre' C07_plPost (tk .hash ['#']) [tk .at ['@']]
+        [tk .word "pot".toList] (Or.inr ⟨rfl, by decide⟩) (by intro t h; simp at h; subst h; decide) (by decide) (by decide)
+        (by intro t h; simp [C07_plPost, SegX.spell] at h; subst h; decide) (by decide)
+        (by intro t h; simp [C07_plPost, SegX.spell] at h; subst h; decide)
+        ⟨tk .word "pot".toList, by simp, rfl, 'p', by simp [tk], by decide⟩).2 rfl)
+      (by decide) (by decide) (by decide)
+  exact ⟨T, tpre, tB, tpost, evsB, h1, h2, h4, h6, h7⟩
+example : ((parseRecipe (α := Rat) C07_vEnvM (render ([] ++ plDocSpec C07_sDoc3))).diags.toList,
+      (parseRecipe (α := Rat) C07_vEnvM (render ([] ++ plDocSpec C07_sDoc3))).output.isSome) =
+    ([⟨.error, .parse, "cookware-recipe-modifier", [⟨25, 26⟩]⟩], false) := by decide +kernel
+example : (parseRecipe (α := Rat) C07_vEnvM ">> source: grandma\n\nUse @&&salt now\n".toList).diags.toList =
+    [⟨.error, .parse, "duplicate-modifier", [⟨25, 27⟩]⟩] := by decide +kernel
+
 end Cook
